@@ -70,7 +70,26 @@ def lines(case, toks, kinds=None):
     q = []
     for x in qs:
         q += ["Q", str(x["f"]), x["kind"], str(x["line"]), str(x["col"])]
-    return " ".join(hw + q), " ".join(dw + q), qs
+    return " ".join(hw + warmups(case) + q), " ".join(dw + q), qs
+
+
+def warmups(case):
+    """`W …` words (harness only; the model has no history): in one workspace out of three every manager first serves a few
+    requests about OTHER places — outlines of files, then definition / completion requests taken from the case's own
+    query list — so that what a query answers is also checked after other documents were parsed / half-analysed.
+    Chosen by a checksum of the workspace id (replays regenerate the same line)."""
+    import zlib
+    h = zlib.crc32(case.id.encode())
+    if h % 3 or not case.queries:
+        return []
+    w = []
+    nf = len(case.files)
+    for j in range(1 + h % 2):
+        w += ["W", str((h // 7 + j * 3) % nf), "o", "0", "0"]
+    for j in range(1 + (h // 5) % 3):
+        x = case.queries[(h // 11 + j * 17) % len(case.queries)]
+        w += ["W", str(x["f"]), x["kind"], str(x["line"]), str(x["col"])]
+    return w
 
 
 def run_lines(argv, lines, chunk=60, par=12, timeout=1800):
